@@ -90,7 +90,7 @@ def model_name(r: random.Random) -> str:
 # ---------------------------------------------------------------------------
 # quadratic family
 # ---------------------------------------------------------------------------
-def make_quad(r: random.Random, k: int, names_mode: str, hostile_values: bool, with_log: bool) -> dict:
+def make_quad(r: random.Random, k: int, names_mode: str, hostile_values: bool, with_log: bool, with_sqrt: bool = False) -> dict:
     nrows = r.randint(2, 6)
     rows = [[round(r.uniform(0.2, 1.5), 3), r.choice([0.5, 1.0, 2.0])] for _ in range(nrows)]
     names = make_names(r, k, names_mode)
@@ -118,6 +118,14 @@ def make_quad(r: random.Random, k: int, names_mode: str, hostile_values: bool, w
             n += 'q'
         spec['logp'] = n
         params.append({'name': n, 'role': 'logp', 's': 1.0, 'c': 0.0, 'wt': 1.0, 'init': 2.0, 'lb': None, 'ub': None})
+    spec['sqrtp'] = None
+    if with_sqrt:
+        # sqrt(r) - r/2: finite value and infinite derivative at r = 0
+        n = 'R_' + ''.join(r.choice(_ASCII) for _ in range(4))
+        while n in [p['name'] for p in params]:
+            n += 'q'
+        spec['sqrtp'] = n
+        params.append({'name': n, 'role': 'sqrtp', 's': 1.0, 'c': 0.0, 'wt': 1.0, 'init': 2.0, 'lb': None, 'ub': None})
     return spec
 
 
@@ -133,7 +141,7 @@ def quad_optimum(spec: dict) -> dict:
     sw_t = sum(w * t for t, w in rows)
     out = {}
     for p in spec['params']:
-        if p['role'] == 'logp':
+        if p['role'] in ('logp', 'sqrtp'):
             out[p['name']] = 1.0
         else:
             # minimise sum_w (s b - c t)^2  -> s b = c * sum(w t)/sum(w)
@@ -154,6 +162,8 @@ def quad_reference(spec: dict, values: dict) -> float:
                 b = np.float64(values[p['name']])
                 if p['role'] == 'logp':
                     row = row + (np.log(b) - b)
+                elif p['role'] == 'sqrtp':
+                    row = row + (np.sqrt(b) - np.float64(0.5) * b)
                 else:
                     row = row - np.float64(w) * np.float64(p['wt']) * (np.float64(p['s']) * b - np.float64(p['c']) * np.float64(t)) ** 2
             tot = tot + row
@@ -175,6 +185,8 @@ def build_quad(spec: dict):
         b = Beta(p['name'], p['init'], p['lb'], p['ub'], 0)
         if p['role'] == 'logp':
             term = log(b) - b
+        elif p['role'] == 'sqrtp':
+            term = b ** 0.5 - 0.5 * b
         else:
             term = -(w * p['wt']) * (p['s'] * b - p['c'] * t) ** 2
         ll = term if ll is None else ll + term
@@ -205,7 +217,7 @@ def make_logit(r: random.Random, names_mode: str, bounds: bool) -> dict:
         if bounds and i == 2 and r.random() < 0.5:
             lb, ub = 0.0, round(abs(truth[2]) * r.choice([0.5, 2.0]), 3)  # possibly active
         params.append({'name': nm, 'init': 0.0, 'lb': lb, 'ub': ub, 'role': 'tame'})
-    return {'kind': 'logit', 'model_name': model_name(r), 'rows': rows, 'params': params, 'logp': None}
+    return {'kind': 'logit', 'model_name': model_name(r), 'rows': rows, 'params': params, 'logp': None, 'sqrtp': None}
 
 
 def build_logit(spec: dict):
@@ -256,13 +268,17 @@ def make_history(r: random.Random, spec: dict, length: int, nonfinite: bool = Tr
     cur_host = {p['name']: _hostile_value(r, p['role']) for p in spec['params'] if p['role'] in ('huge', 'tiny', 'digits')}
     logp = spec['logp']
 
-    def point(d, host, pval):
+    sqrtp = spec.get('sqrtp')
+
+    def point(d, host, pval, rval=1.0):
         x = {}
         for p in spec['params']:
             if p['role'] == 'tame':
                 x[p['name']] = opt[p['name']] + d * direction[p['name']]
             elif p['role'] == 'logp':
                 x[p['name']] = pval
+            elif p['role'] == 'sqrtp':
+                x[p['name']] = rval
             else:
                 x[p['name']] = host[p['name']]
         return x
@@ -274,6 +290,8 @@ def make_history(r: random.Random, spec: dict, length: int, nonfinite: bool = Tr
     kinds = ['improve', 'improve', 'worsen-mid', 'worsen-mid', 'worsen-far', 'tie-same', 'tie-flip', 'host-only']
     if nonfinite and logp:
         kinds += ['nonfinite-g', 'nan-f']
+    if nonfinite and sqrtp:
+        kinds += ['inf-g-finite-f', 'inf-g-finite-f-better']
     if nonfinite:
         kinds += ['nan-x']
     for j in range(length):
@@ -283,6 +301,7 @@ def make_history(r: random.Random, spec: dict, length: int, nonfinite: bool = Tr
             intent = r.choice(kinds)
         host = dict(cur_host)
         pval = 1.0
+        rval = 1.0
         d = d_best
         if intent in ('first',):
             d = d_first
@@ -300,9 +319,14 @@ def make_history(r: random.Random, spec: dict, length: int, nonfinite: bool = Tr
             pval = 0.0
         elif intent == 'nan-f':
             pval = -r.uniform(0.1, 2.0)
+        elif intent == 'inf-g-finite-f':
+            rval = 0.0
+        elif intent == 'inf-g-finite-f-better':
+            rval = 0.0
+            d = d_best * r.uniform(0.0, 0.4)
         if r.random() < 0.5 and intent in ('improve', 'worsen-mid', 'worsen-far'):
             host = {n: _hostile_value(r, next(p['role'] for p in spec['params'] if p['name'] == n)) for n in host}
-        x = point(d, host, pval)
+        x = point(d, host, pval, rval)
         if intent == 'tie-same' and best_pt is not None:
             x = dict(best_pt)
         elif intent == 'tie-flip' and best_pt is not None:
@@ -318,11 +342,11 @@ def make_history(r: random.Random, spec: dict, length: int, nonfinite: bool = Tr
             if intent == 'improve' or best_pt is None:
                 d_best = min(d_best, d)
                 best_pt = dict(x)
-        cur_host = host if intent not in ('nan-x', 'nonfinite-g', 'nan-f') else cur_host
+        cur_host = host if intent not in ('nan-x', 'nonfinite-g', 'nan-f', 'inf-g-finite-f', 'inf-g-finite-f-better') else cur_host
         steps.append({
             'intent': intent,
             'x': {n: fhex(v) for n, v in x.items()},
-            'container': 'array' if intent in ('nan-x', 'nonfinite-g', 'first-nan-f') else r.choice(['list', 'array', 'array']),
+            'container': 'array' if intent in ('nan-x', 'nonfinite-g', 'first-nan-f', 'inf-g-finite-f', 'inf-g-finite-f-better') else r.choice(['list', 'array', 'array']),
             'scaled': False, 'hessian': r.random() < 0.3, 'bhhh': r.random() < 0.3,
         })
     return steps
